@@ -46,5 +46,8 @@ run C01 cubed/core/ops.py 'result = nxp.concat\(\[result, reduced_chunk\], axis=
 run C12 cubed/core/ops.py 'k: nxp.concat\(\[result\[k\], reduced_chunk\[k\]\], axis=axis\[0\]\)' 'k: nxp.concat([result[k], reduced_chunk[k]], axis=axis[0]) if k != "n" else result[k]' --only 'partial_reduce[structured]'
 run C01 cubed/core/ops.py 'for _ in range\(depth\):' 'for _ in range(depth - 1):' --only 'ops:reduction'
 run C01 cubed/core/ops.py 'axis_to_squeeze = tuple\(i for i in axis if result.shape\[i\] == 1\)' 'axis_to_squeeze = tuple(i for i in axis[:1] if result.shape[i] == 1)' --only 'ops:reduction'
+run C01 cubed/core/ops.py 'bi = block_id\[axis\] % split_every' 'bi = (block_id[axis] + 1) % split_every' --only 'ops:scan'
+run C01 cubed/core/ops.py '        dtype=dtype,\n        include_initial=True,\n    \)' '        dtype=dtype,\n        include_initial=False,\n    )' --only 'ops:scan'
+run C01 cubed/core/ops.py 'bi // split_every if i == axis else bi for i, bi in enumerate\(out_coords\)' '0 if i == axis else bi for i, bi in enumerate(out_coords)' --only 'ops:scan'
 echo "selected=$n"
 exit $fail
